@@ -1633,6 +1633,8 @@ def search(ctx):
             break
     # 3. bonds: two-atom patterns, documented meaning of the bond token
     bond_search(ctx, t_end, texts)
+    # 3c. ring-closure bonds with query bond tokens
+    closure_search(ctx, t_end)
     # 3a. chains of documented atoms and bond tokens: accepted, maps kept, numbers distinct
     for t, rad in ([(x, []) for x in texts] + chain_strings(ctx)):
         if time.time() > t_end:
@@ -1783,6 +1785,42 @@ def check_chain(text):
         return f'{body}: {nb} bonds written, {len(list(q.bonds()))} built'
     return None
 
+
+def closure_case(x, y):
+    """ring-closure bond written as token x at the opening and y at the closing digit: `[C]x1[C][C]y1`.
+    Documented reading: one specification suffices; two must agree. Returns None or a description of the failure."""
+    from chython import smarts
+    spec = lambda t: None if t == '' else (frozenset(BOND_DOC[t.split(';')[0]]), {'': None, '@': True, '!@': False}[t.partition(';')[2]])
+    text = f'[C]{x}1[C][C]{y}1'
+    sx, sy = spec(x), spec(y)
+    try:
+        q = smarts(text)
+        got = next(b for n, m, b in q.bonds() if {n, m} == {1, 3})
+        got = (frozenset(got.order), got.in_ring)
+    except Exception as e:
+        got = type(e).__name__
+    if sx is None or sy is None:
+        want = sx or sy or (frozenset({1}), None)
+        return None if got == want else f'{text}: closure bond read as {got}, written {want}'
+    if x == y:
+        return None if got == sx else f'{text}: the same specification on both sides read as {got}'
+    if not (sx[0] & sy[0]):
+        return None if got == 'IncorrectSmarts' else f'{text}: contradictory closure bonds {sorted(sx[0])} / {sorted(sy[0])} read as {got}'
+    return None       # overlapping but different specifications: not documented
+
+
+def closure_search(ctx, t_end):
+    import time
+    toks = [''] + [t for t in BOND_DOC if t] + [t + r for t in ('-', '=', '-,=', '!-') for r in (';@', ';!@')]
+    for x in toks:
+        for y in toks:
+            if time.time() > t_end:
+                return
+            bad = closure_case(x, y)
+            if bad:
+                ctx.fail('C08/ring-closure-bond-misread', bad, {'kind': 'closure', 'x': x, 'y': y})
+                return
+
 def bond_search(ctx, t_end, texts):
     import time
     mols = [(n, m) for n, m in molecules(ctx) if len(m) <= 30]
@@ -1928,6 +1966,9 @@ def probe(inp):
             if got != exp:
                 return True, f'atom {n}: labels (neighbors, heteroatoms, hybridization, in_ring) {got}, independent computation {exp}'
         return False, 'labels agree with the independent computation'
+    if kind == 'closure':
+        bad = closure_case(inp['x'], inp['y'])
+        return bool(bad), bad or f'closure bond {inp["x"]!r} / {inp["y"]!r} read as documented'
     if kind == 'chain':
         bad = check_chain(inp['smarts'])
         return bool(bad), bad or f'{inp["smarts"]}: accepted with its maps and one bond per junction (or outside the documented subset)'
